@@ -58,10 +58,10 @@ PROPS = {
                    '<= as < or ==, hash consistency are proved as lemmas over that specification for all names. The C twin '
                    'IB_richcompare is verified from the clang AST of the real file against the SAME specification (functional C front '
                    'end: every path, CPython API by functional models): identical object, None, InterfaceBase instances, foreign '
-                   'objects with and without __name__/__module__, NULL iff an exception is set. The C hash twin and the end-to-end '
-                   'behaviour are compared with the specification bounded (pool incl. Latin-1/BMP/astral names).',
+                   'objects with and without __name__/__module__, NULL iff an exception is set; the C hash twin IB__hash__ against the cached hash of '
+                   'the (name, module) key. The end-to-end behaviour is compared with the specification bounded (pool incl. Latin-1/BMP/astral names).',
         level_note='str comparison enters only as a strict total order (axioms); __name__/__module__ are str; CPython API models '
-                   'trusted (A2); C hash twin bounded.',
+                   'trusted (A2).',
     ),
     'C04': dict(
         title='Adapter lookup returns the most specific applicable registration',
@@ -74,11 +74,14 @@ PROPS = {
                    'specification for all registry contents, arities and hierarchies; add_extendor/remove_extendor are verified to '
                    'rebuild, for every interface of the provided interface\'s resolution order, exactly the stable partition '
                    '[more general entries] + [provided] + [the others] (resp. the list without the interface) in fresh lists, '
-                   'touching no other key and no list that existed before. The C twin of _lookup and the cache wrapper are '
-                   'compared with a brute-force ranking bounded (random worlds incl. one key registered for most provided '
+                   'touching no other key and no list that existed before; _subscribe keeps "a remembered specification is a subscribed one". '
+                   'The cache wrapper and the C twin of the cached search are verified under C05/C08 (contracts/C05_cache.py, contracts/C05_c.py: '
+                   'a cached answer is returned, otherwise the answer of this uncached search is returned and stored); the end-to-end ranking is '
+                   'additionally compared with a brute-force ranking bounded (random worlds incl. one key registered for most provided '
                    'interfaces of a DAG in random order, both implementations), labelled bounded.',
         level_note='Assumes the representation invariant of registries (tree of dicts per order, extendor lists) as '
-                   'precondition (established by the mutators, C09), ghost predicate in_tree, _subscribe by assumed contract.',
+                   'precondition (the mutators are verified against their effect on the containers under C09; that they re-establish the '
+                   'tree shape is a meta-argument), ghost predicate in_tree.',
     ),
     'C07': dict(
         title='subscriptions() returns every applicable subscriber, with multiplicity, in order',
@@ -96,11 +99,15 @@ PROPS = {
                                'adapter.py:BaseAdapterRegistry._addValueToLeaf', 'adapter.py:BaseAdapterRegistry._removeValueFromLeaf']},
         level_text='_subscriptions (the nested collector, recursion through its own contract) is verified from its real body: '
                    'it appends exactly the leaves of the applicable keys, least specific first at every required position and '
-                   'for the provided extendors, preserving leaf order and multiplicity, and touches no other list. The '
-                   'subscribe/unsubscribe mutators, the registry walk and the C twin are checked bounded against a reference '
-                   'model of the statement on random histories (duplicates, equal-but-distinct values, handlers), labelled bounded.',
-        level_note='deductive for the collector only; mutators and C twin bounded (history <= 6). in_tree ghost, tree-of-dicts precondition.',
-        explanation='proof obligations for _subscriptions discharged; the rest of the property is decided by bounded run-time contract checking only',
+                   'for the provided extendors, preserving leaf order and multiplicity, and touches no other list. subscribe is verified '
+                   'to append the subscriber to the tuple leaf of exactly that key (found by the path specification in the final heap) and '
+                   'unsubscribe to remove exactly the equal subscribers of that leaf keeping the order of the others, pruning only emptied '
+                   'mappings, and to change nothing when no equal subscriber is there (contracts/C09_registry.py, shared with C09). '
+                   'The end-to-end statement over histories (duplicates, equal-but-distinct values, handlers, chains) is checked bounded '
+                   'against a reference model, labelled bounded.',
+        level_note='collector, registry walk, mutators and the C twin of the cached search are deductive; that the heap-level effect of the mutators is '
+                   'the view-level effect needs the tree shape of the containers (meta-argument); histories bounded (<= 6). in_tree ghost, tree-of-dicts precondition.',
+        explanation='collector, walk, mutators and cache layer proved against one specification each; composition over histories bounded',
     ),
     'C08': dict(
         title='All lookup entry points agree with lookup() and subscriptions()',
